@@ -5,7 +5,7 @@ system at any queue position and timestep (also in the middle of a multi-step re
 outside between steps; afterwards the simulator keeps issuing requests and checks that nothing moves."""
 import logging
 
-from .common import (MAXSIZE, Model, ModelCompleteError, Rec, RefSched, SystemNotFoundError, gen_flavour, gen_prio, gen_window,
+from .common import (model_class, model_class, MAXSIZE, Model, ModelCompleteError, Rec, RefSched, SystemNotFoundError, gen_flavour, gen_prio, gen_window,
                      rec_class, spec_defaults)
 
 PROPERTY = "C06"
@@ -180,9 +180,9 @@ def execute(sc, ctx):
 def _execute(sc, ctx):
     how = sc.get("logging")
     if how == "custom_logger":           # a logger of the user's own: no level set, so it inherits WARNING from the root
-        m = Model(seed=20260927, logger=logging.getLogger("c06.user.logger"))
+        m = model_class(sc, ctx)(seed=20260927, logger=logging.getLogger("c06.user.logger"))
     else:
-        m = Model(seed=20260927)
+        m = model_class(sc, ctx)(seed=20260927)
     Rec_ = rec_class(sc, ctx)       # noqa: N806
     w = World(sc, ctx, m)
     ref = RefSched()
